@@ -52,7 +52,7 @@ macro_rules! query {
 #[kani::stub(<scpi::parser::tokenizer::Tokenizer as core::iter::Iterator>::next, stub_next)]
 pub fn syst_err_next() {
     set_script(&[]);
-    let d0 = any_dev_with(any_queue(any_tiny_error));
+    let d0 = any_dev_with(numbered_queue());
     let mut d = d0;
     let mut out = alloc::vec::Vec::<u8>::new();
     kani::cover!(d0.q.len == 0);
@@ -95,7 +95,7 @@ pub fn syst_err_count() {
 #[kani::stub(<scpi::parser::tokenizer::Tokenizer as core::iter::Iterator>::next, stub_next)]
 pub fn syst_err_all() {
     set_script(&[]);
-    let d0 = any_dev_with(any_queue(any_tiny_error));
+    let d0 = any_dev_with(numbered_queue());
     let mut d = d0;
     let mut out = alloc::vec::Vec::<u8>::new();
     kani::cover!(d0.q.len == 3);
